@@ -14,6 +14,7 @@ From Coq Require Import String.
 From Fiano Require Import Base.Bytes Model.TightenMe Model.FlashImage Proofs.TightenMeProofs.
 From Fiano Require Import Model.Nvar Model.ExtractNvar Proofs.ExtractNvarProofs.
 From Fiano Require Import Model.Ffs Model.Extract Model.ExtractFlash Proofs.ExtractProofs Proofs.ExtractFlashProofs.
+From Fiano Require Import Model.ExtractEdit Proofs.ExtractEditProofs.
 Open Scope Z_scope.
 
 (* ---- path uniqueness ---- *)
@@ -176,6 +177,75 @@ Theorem C07_field_edit_in_file : forall enc s2u h buf pre sec sec' post st pre' 
 Proof. exact edit_section_in_file. Qed.
 Print Assumptions C07_field_edit_in_file.
 
+(* ---- single-field edits at any depth (Model/ExtractEdit.v) ---- *)
+
+(* "exactly that field", one container at a time.  A file of a volume is edited (the file itself or
+   anything below it): the other files of the volume are assembled to the same nodes, and the volume is
+   laid out again by its own rule [vol_asm] around the new file ... *)
+Theorem C07_field_edit_in_volume : forall enc s2u h buf pre f f' post st pol0 pre' s1 y y' s2 post' s3,
+  set_polarity (fst st) (fv_polarity (v_attrs h)) = Some pol0 ->
+  asm_elems enc s2u pre (pol0, false) = Ok (pre', s1) ->
+  asm enc s2u f s1 = Ok (y, s2) -> asm enc s2u f' s1 = Ok (y', s2) ->
+  asm_elems enc s2u post s2 = Ok (post', s3) ->
+  asm enc s2u (NVol h buf (pre ++ f :: post)) st =
+    (do r <- vol_asm h buf (pre' ++ y :: post') s3; let '(n', st2) := r in Ok (n', (fst st2, snd st))) /\
+  asm enc s2u (NVol h buf (pre ++ f' :: post)) st =
+    (do r <- vol_asm h buf (pre' ++ y' :: post') s3; let '(n', st2) := r in Ok (n', (fst st2, snd st))).
+Proof. exact edit_in_volume. Qed.
+Print Assumptions C07_field_edit_in_volume.
+
+(* ... the same for a child of an encapsulating section (a compressed section is compressed again, an
+   FV-image section wraps the new volume) ... *)
+Theorem C07_field_edit_in_section : forall enc s2u h buf pre c c' post st pre' s1 y y' s2 post' s3,
+  asm_elems enc s2u pre st = Ok (pre', s1) ->
+  asm enc s2u c s1 = Ok (y, s2) -> asm enc s2u c' s1 = Ok (y', s2) ->
+  asm_elems enc s2u post s2 = Ok (post', s3) ->
+  asm enc s2u (NSec h buf (pre ++ c :: post)) st = sec_asm enc s2u h buf (pre' ++ y :: post') s3 /\
+  asm enc s2u (NSec h buf (pre ++ c' :: post)) st = sec_asm enc s2u h buf (pre' ++ y' :: post') s3.
+Proof. exact edit_in_section. Qed.
+Print Assumptions C07_field_edit_in_section.
+
+(* ... and for a volume of the BIOS region: the other volumes and the paddings come out the same, the
+   region is put together from the element list in which only the edited volume differs *)
+Theorem C07_field_edit_in_region : forall enc s2u pre v v' post len st pre' s1 y y' s2 post' s3,
+  asm_elems enc s2u pre st = Ok (pre', s1) ->
+  asm enc s2u v s1 = Ok (y, s2) -> asm enc s2u v' s1 = Ok (y', s2) ->
+  asm_elems enc s2u post s2 = Ok (post', s3) ->
+  exists finish,
+    asm_bios enc s2u (pre ++ v :: post) len st = finish (pre' ++ y :: post') /\
+    asm_bios enc s2u (pre ++ v' :: post) len st = finish (pre' ++ y' :: post').
+Proof. exact edit_in_region. Qed.
+Print Assumptions C07_field_edit_in_region.
+
+(* Replacing the value of the k-th editable field in summary.json ([jedit_list]: the GUID of a file with
+   sections, a UI name, a version string, a dependency expression — anywhere in the tree, also below
+   compressed sections and in nested volumes) and loading the directory gives the tree that loading
+   first and replacing the field in the tree ([nedit_list]) gives.  Uses that these fields and the
+   section type survive encoding/json (Gen/JsonFields.v). *)
+Theorem C07_json_edit_is_tree_edit : forall mangle3 e js F ns,
+  reload_list mangle3 F js = Ok ns -> forall k,
+  reload_list mangle3 F (fst (jedit_list e js k)) = Ok (fst (nedit_list e ns k)) /\
+  snd (jedit_list e js k) = snd (nedit_list e ns k).
+Proof. intros mangle3 e js F ns H k. exact (reload_jedit_list mangle3 e js F ns H k). Qed.
+Print Assumptions C07_json_edit_is_tree_edit.
+
+(* the replacement keeps trees indistinguishable for the assembler indistinguishable *)
+Theorem C07_edit_preserves_rel : forall e, edit_ok e -> forall k1 k2 k,
+  Forall2 rel k1 k2 -> Forall2 rel (fst (nedit_list e k1 k)) (fst (nedit_list e k2 k)).
+Proof. intros e He k1 k2 k. exact (nedit_list_rel' e He k1 k2 k). Qed.
+Print Assumptions C07_edit_preserves_rel.
+
+(* Hence, for every image, every editable field and every new value: "extract DIR", the edit of
+   DIR/summary.json, "DIR save" = the same field replaced in the parsed image, followed by the same two
+   Assemble passes (bytes or error class).  Together with the theorems above about what Assemble makes
+   of a replaced field this is the second sentence of the property. *)
+Theorem C07_dir_edit_save_image : forall dec enc u2s s2u nvar mangle3,
+  (forall k p e, dec k p = Some e -> bytes_ok e = true) ->
+  forall d img e k, bytes_ok img = true -> edit_ok e ->
+  dir_edit_save dec enc u2s s2u nvar mangle3 d img e k = tree_edit_save dec enc u2s s2u nvar d img e k.
+Proof. exact dir_edit_save_eq. Qed.
+Print Assumptions C07_dir_edit_save_image.
+
 (* the text form of a GUID in summary.json (GUID.String) is read back by guid.Parse as the same GUID *)
 Theorem C07_guid_text_roundtrip : forall g,
   zlen g = 16 -> bytes_ok g = true -> guid_parse (guid_string g) = Some g.
@@ -306,6 +376,30 @@ Example ex_edit_ui :
   let h := mkSec 10 21 10 4 None [65; 66] 0 [] None 0 in
   asm no_codec ascii_s2u (NSec (with_name h [88; 89; 90]) [10; 0; 0; 21; 65; 0; 66; 0; 0; 0] []) (255, false) =
   Ok (NSec (mkSec 12 21 12 4 None [88; 89; 90] 0 [] None 0) [12; 0; 0; 21; 88; 0; 89; 0; 90; 0; 0; 0] [], (255, false)).
+Proof. vm_compute. reflexivity. Qed.
+
+(* edits through the directory, on the whole example image.  The first UI name ("AB") becomes "XYZWW":
+   the section grows from 10 to 16 bytes, the file from 54 to 58; its size field, header checksum (247)
+   and body checksum (99) follow; the raw and version sections keep their bytes; the second file moves
+   to the next 8-byte boundary behind six erased bytes and keeps its bytes; the volume keeps its length
+   (its free space shrinks); nothing before the file changes *)
+Example ex_dir_edit_ui :
+  dir_edit_save no_codec no_codec ascii_u2s ascii_s2u no_nvar same3 8 ex_img (EName [88; 89; 90; 87; 87]) 0 =
+  Ok (zfirstn 96 ex_img ++
+      [247; 99; 7; 64; 58; 0; 0; 248] ++ [16; 0; 0; 21; 88; 0; 89; 0; 90; 0; 87; 0; 87; 0; 0; 0] ++
+      sub 116 18 ex_img ++ zrepeat 255 6 ++ sub 136 29 ex_img ++ zrepeat 255 3).
+Proof. vm_compute. reflexivity. Qed.
+
+(* the GUID of the first file (the one rebuilt from its sections; candidate 0) becomes 09..09: exactly
+   the 16 GUID bytes and the header checksum byte change *)
+Example ex_dir_edit_guid :
+  dir_edit_save no_codec no_codec ascii_u2s ascii_s2u no_nvar same3 8 ex_img (EGuid (zrepeat 9 16)) 0 =
+  Ok (zfirstn 80 ex_img ++ zrepeat 9 16 ++ [243] ++ zskipn 97 ex_img).
+Proof. vm_compute. reflexivity. Qed.
+
+(* there is no second file with sections: candidate 1 does not exist and nothing is edited *)
+Example ex_dir_edit_guid_none :
+  dir_edit_save no_codec no_codec ascii_u2s ascii_s2u no_nvar same3 8 ex_img (EGuid (zrepeat 9 16)) 1 = Ok ex_img.
 Proof. vm_compute. reflexivity. Qed.
 
 (* a tree that violates paths_ok: two paddings at the same offset (the state reached by applying
